@@ -4,3 +4,4 @@ import PolyVerif.Props.C05
 import PolyVerif.Props.C11
 import PolyVerif.Props.C12
 import PolyVerif.Props.C10
+import PolyVerif.Props.C13
